@@ -67,7 +67,7 @@ pub fn run_bin<S: AsRef<str>>(args: &[S], stdin: Option<&str>, extra_env: &[(&st
         stdin: stdin.map(|s| s.as_bytes().to_vec()),
         env,
         cwd,
-        timeout: Duration::from_secs(20),
+        timeout: Duration::from_secs(120),
     })
     .unwrap_or_else(|e| crate::machinery_error(&format!("cannot spawn {bin:?}: {e}")));
     if o.timed_out {
